@@ -233,7 +233,7 @@ pub fn run_check(id: &str, tier: Tier) -> i32 {
             props_conf::run_c19(&ctx);
             fuzzdrv::run_for(&ctx, "C19");
             if wire_ok && ctx.violations.lock().unwrap().is_empty() {
-                ctx.rule("wire-dns-smoke: generated dns-routes sections (0..4 routes; domain-suffixes absent / empty / 1..3 names incl. the root and mixed case; type absent / forward / forge-nxdomain / null; dns-servers absent / [] / null / a scripted upstream / an address nobody listens on / an unreachable address) through the real loader; every accepted document is served by a fresh erbium-dns and asked, under every configured suffix and under none, with RD set and clear over UDP and with RD set over TCP; oracle: a response to every question (any rcode) within 15 s, no panic line in the server log, process alive; non-trivial = at least one route");
+                ctx.rule("wire-dns-smoke: generated dns-routes sections (0..4 routes; domain-suffixes absent / empty / 1..3 names incl. the root and mixed case; type absent / forward / forge-nxdomain / null; dns-servers absent / [] / null / a scripted upstream / an address nobody listens on / an unreachable address) through the real loader; every accepted document is served by a fresh erbium-dns and asked, under every configured suffix and under none, with RD set and clear over UDP and with RD set over TCP; oracle: a response to every question (any rcode) within 15 s (40 s where the configured upstream never answers: the forwarder's own back-off runs up to 20.3 s), no panic line in the server log, process alive; non-trivial = at least one route");
                 props_confwire::run_c19_wire(&ctx);
             }
         }
